@@ -28,7 +28,8 @@ def overlay(o):
                      f" + bts_rows(2 * BIT_PAIRS, {N} + bts_wits(2 * BIT_PAIRS), b.idx(), right_acc.idx())",
                      f"BIT_PAIRS > 0 ==> wits(*final(self)).len() == {N} + 2 * bts_wits(2 * BIT_PAIRS)"] + FRAME)
     f.after("self.bind_truncated_input::<BIT_PAIRS>(a, left_acc)", KEEP)
-    f.before_tail(KEEP + """
+    # anchored AFTER the second binding call (a statement anchor works at any nesting depth: early-return and nested-if forms alike)
+    f.after("self.bind_truncated_input::<BIT_PAIRS>(b, right_acc)", KEEP + """
 proof { if BIT_PAIRS > 0 { assert(gates(*self) =~= gates(*old(self)) + bts_rows(2 * BIT_PAIRS, wits(*old(self)).len() as int, a.idx(), left_acc.idx())
      + bts_rows(2 * BIT_PAIRS, wits(*old(self)).len() + bts_wits(2 * BIT_PAIRS), b.idx(), right_acc.idx())); } }""")
 
